@@ -312,11 +312,14 @@ def run(ctx):
     ctx.clause("C13.3 compact-protocol header state/short-long forms/zigzag; struct begin/end balance")
     ctx.clause("C13.4 unknown fields skipped; thrift_skip exhaustive over wire types")
 
-    wnames = {f.name for f in P.funcs_in(PT) if f.name.startswith("write_") or f.name.startswith("parquet_write_")}
-    pnames = {f.name for f in P.funcs_in(PT) if f.name.startswith("parse_") or f.name.startswith("parquet_parse_")}
+    # the struct-level writer/parser functions are compared pairwise; every other static helper of the
+    # file (a field helper, a nested-struct helper) is expanded into its callers first
+    wnames = {wn for wn, _, _ in PAIRS}
+    pnames = {pn for _, pn, _ in PAIRS}
     cmp_ = Cmp(ctx, PT, PT)
     for wn, pn, sname in PAIRS:
-        wf, pf = P.fn(wn, PT), P.fn(pn, PT)
+        wf = P.inlined(P.fn(wn, PT), 3, wnames | set(tt.W_PRIM))
+        pf = P.inlined(P.fn(pn, PT), 3, pnames | set(tt.R_PRIM))
         W, probs = tt.extract_writer(P, wf, wnames)
         for msg, node in probs:
             ctx.bad("R5.shape", "writer-shape|%s:%s|%s" % (PT, wn, msg.split(":")[0]), P.where(node), msg)
@@ -337,7 +340,7 @@ def run(ctx):
     for f in P.funcs_in(PI):
         if not f.calls("thrift_write_struct_begin"):
             continue
-        W, probs = tt.extract_writer(P, f, set())
+        W, probs = tt.extract_writer(P, P.inlined(f, 3), set())
         if W is None:
             continue
         fix_shared_structs(W)
@@ -385,23 +388,44 @@ def run(ctx):
     # field headers are delta-coded against the enclosing struct's frame: every field loop runs inside
     # a frame pushed by struct_begin in the same function (also when the struct is only skipped)
     nfr = 0
-    for f in P.funcs_in(PT, TD, TE, "src/metadata/page_index.c", "src/writer/page_writer.c", "src/reader/page_reader.c"):
-        if f.cfg is None:
-            continue
-        for side, begin, users in (("read", "thrift_read_struct_begin", ("thrift_read_field_begin",)),
-                                   ("write", "thrift_write_struct_begin", ("thrift_write_field_header", "thrift_write_field_stop"))):
-            if f.name in (begin,) + users:
-                continue
-            bs = f.calls(begin)
+    frame_files = (PT, TD, TE, "src/metadata/page_index.c", "src/writer/page_writer.c", "src/reader/page_reader.c")
+    frame_fns = [f for f in P.funcs_in(*frame_files) if f.cfg is not None]
+    for side, begin, users in (("read", "thrift_read_struct_begin", ("thrift_read_field_begin",)),
+                               ("write", "thrift_write_struct_begin", ("thrift_write_field_header", "thrift_write_field_stop"))):
+        # a static function that writes/reads field headers without pushing a frame itself is a field
+        # helper: the frame is its callers' obligation (checked at every call site, transitively)
+        helpers = {}
+
+        def framed(f, c, begin=begin):
+            return any(f.cfg.node_dominates(b, c) for b in f.calls(begin))
+        pending = []
+        for f in frame_fns:
+            if f.name in (begin,) + users or (side == "write" and P.rel(f.file) == TE):
+                continue            # the codec's own primitives: the frame is their caller's
             for u in users:
                 for c in f.calls(u):
-                    if side == "write" and P.rel(f.file) == TE:
-                        continue        # the encoder's own primitives: the frame is their caller's
-                    nfr += 1
-                    ok = any(f.cfg.node_dominates(b, c) for b in bs)
-                    ctx.ob("R6.balance", "frame|%s:%s|%s" % (P.rel(f.file), f.name, u), P.where(c),
-                           "%s runs inside a field-id frame pushed by %s in %s" % (u, begin, f.name), ok,
-                           "" if ok else "no dominating %s" % begin)
+                    pending.append((f, c, u))
+        seen = set()
+        while pending:
+            f, c, u = pending.pop()
+            if (f.key(), c.i) in seen:
+                continue
+            seen.add((f.key(), c.i))
+            nfr += 1
+            if framed(f, c):
+                ctx.ok("R6.balance", "frame|%s:%s|%s" % (P.rel(f.file), f.name, u), P.where(c),
+                       "%s runs inside a field-id frame pushed by %s in %s" % (u, begin, f.name))
+                continue
+            callers = [(g, cc) for g in frame_fns for cc in g.calls(f.name)] if f.static else []
+            if callers:
+                ctx.ok("R6.balance", "frame|%s:%s|%s" % (P.rel(f.file), f.name, u), P.where(c),
+                       "%s is a field helper: the frame is pushed by its %d caller(s)" % (f.name, len(callers)))
+                for g, cc in callers:
+                    pending.append((g, cc, f.name))
+            else:
+                ctx.bad("R6.balance", "frame|%s:%s|%s" % (P.rel(f.file), f.name, u), P.where(c),
+                        "%s runs inside a field-id frame pushed by %s in %s" % (u, begin, f.name),
+                        "no dominating %s, and %s is not a static helper called from a framed context" % (begin, f.name))
     ctx.floor("C13 field headers inside frames", nfr, 25)
 
     # ---- C13.3 field-id delta state
@@ -516,86 +540,126 @@ def _fold_other(S, pnames):
 
 
 def _forms(ctx):
+    """Short/long header forms of the compact protocol, decided by executing the four header codecs
+    abstractly over their whole small input space (the byte source/sink calls are hooked and only
+    recorded): robust to how the decision is spelled (operand order, swapped arms, helpers)."""
+    from ..rules.skeleton import Interp, Ptr, U, Budget, Stop
     P = ctx.P
-    # encoder field header: short form iff 0 < delta <= 15
+    enc_rec, dec_rec = P.record("thrift_encoder"), P.record("thrift_decoder")
+    eo = {f["n"]: f["off"] // 8 for f in enc_rec["fields"] if f.get("off") is not None}
+    do = {f["n"]: f["off"] // 8 for f in dec_rec["fields"] if f.get("off") is not None}
+    for need, o in ((("nesting_level", "last_field_id", "status"), eo), (("nesting_level", "last_field_id", "status"), do)):
+        if any(n not in o for n in need):
+            raise AnalysisBroken("thrift codec state fields not found")
+    L = 40
+
+    def run(fn, args, heap0, hooks):
+        it = Interp(P, fn, budget=200000, max_forks=8)
+        it.heap0 = heap0
+        ev = []
+        for name, h in hooks.items():
+            it.hooks[name] = (lambda i_, node, a, h=h, name=name: h(ev, a))
+        outs = it.run(args)
+        if len(outs) != 1:
+            raise Stop("control flow of %s depends on unknown data" % fn.name)
+        return outs[0][1], ev, it.heap
+
+    def byte_of(v):
+        return v & 0xFF if isinstance(v, int) else v
+
+    # ---- encoder field header
     f = P.fn("thrift_write_field_header", TE)
-    ifs = [n for n in f.body.walk() if n.k == "IfStmt"]
-    cz = Canon(f, inline=False)
-    found = None
-    for n in ifs:
-        t = cz([x for x in n.c if x is not None][0])
-        if t[0] == "bin" and t[1] == "&&":
-            found = (n, t)
-    key = "short-form|%s:thrift_write_field_header" % TE
-    if found is None:
-        ctx.inconclusive("R5.forms", key, P.where(f.body), "short/long decision of the field header not recognised")
-    else:
-        n, t = found
-        parts = {repr(t[2]), repr(t[3])}
-        d = None
-        for s in subtrees(t):
-            if s[0] == "local":
-                d = s
-        okc = parts == {repr(("bin", "<", ("int", 0), d)), repr(("bin", "<=", d, ("int", 15)))}
-        ctx.ob("R5.forms", key, P.where(n),
-               "field header short form iff 0 < delta <= 15 (delta nibble 0 means long form)", okc, show(t))
-    # decoder: long form iff nibble == 0
+    bad = None
+    try:
+        for fid in range(L - 20, L + 41):
+            for ty in (1, 5, 12):
+                heap0 = {("enc", eo["nesting_level"]): 1, ("enc", eo["last_field_id"]): L, ("enc", eo["status"]): 0}
+                _, ev, heap = run(f, [Ptr("enc", 0, 1), ty, fid], heap0, {
+                    "thrift_write_byte": lambda ev, a: ev.append(("byte", byte_of(a[1]))) or 0,
+                    "thrift_write_i16": lambda ev, a: ev.append(("i16", a[1])) or 0,
+                    "thrift_write_zigzag": lambda ev, a: ev.append(("i16", a[1])) or 0})
+                delta = fid - L
+                want = [("byte", (delta << 4) | ty)] if 1 <= delta <= 15 else [("byte", ty), ("i16", fid)]
+                if ev != want and bad is None:
+                    bad = "previous id %d, field id %d, type %d: writes %s, the compact protocol writes %s" % (L, fid, ty, ev, want)
+                if heap.get(("enc", eo["last_field_id"])) != fid and bad is None:
+                    bad = "field id %d is not recorded as the previous id" % fid
+    except (Budget, Stop) as ex:
+        ctx.inconclusive("R5.forms", "short-form|%s:thrift_write_field_header" % TE, P.where(f.body), "abstract execution", str(ex))
+        bad = "?"
+    if bad != "?":
+        ctx.ob("R5.forms", "short-form|%s:thrift_write_field_header" % TE, P.where(f.body),
+               "field header: one byte (delta<<4|type) iff 0 < delta <= 15, else type byte + zigzag id; the id becomes the "
+               "previous id (all deltas -20..40)", bad is None, bad or "")
+    # ---- decoder field header
     g = P.fn("thrift_read_field_begin", TD)
-    cz = Canon(g)
-    nib = ("bin", "&", ("int", 15), ("bin", ">>", None, ("int", 4)))
-    found = None
-    for n in g.body.walk():
-        if n.k == "IfStmt":
-            t = _nocast(cz([x for x in n.c if x is not None][0]))
-            if t[0] == "bin" and t[1] == "==" and ("int", 0) in (t[2], t[3]):
-                other = t[3] if t[2] == ("int", 0) else t[2]
-                if _is_nibble(other):
-                    found = (n, t)
-    ctx.ob("R5.forms", "long-form|%s:thrift_read_field_begin" % TD, P.where(g.body),
-           "decoder reads an explicit field id iff the delta nibble ((header >> 4) & 0x0F) is 0",
-           found is not None)
-    if found is not None:
-        n = found[0]
-        kids = [x for x in n.c if x is not None]
-        then_reads = any(c.k == "CallExpr" and c.callee in ("thrift_read_i16", "thrift_read_zigzag")
-                         for c in kids[1].walk())
-        else_adds = len(kids) > 2 and any(b.k == "BinaryOperator" and b.op == "+" for b in kids[2].walk())
-        ctx.ob("R5.forms", "long-form-arms|%s:thrift_read_field_begin" % TD, P.where(n),
-               "long form reads a zigzag i16 id, short form adds the delta to the previous id",
-               then_reads and else_adds)
-    # list header: encoder short iff count < 15, decoder long iff nibble == 15
+    bad = None
+    try:
+        for h in range(0, 256):
+            heap0 = {("dec", do["nesting_level"]): 1, ("dec", do["last_field_id"]): L, ("dec", do["status"]): 0}
+            ret, ev, heap = run(g, [Ptr("dec", 0, 1), Ptr("ty", 0, 4), Ptr("fid", 0, 2)], heap0, {
+                "read_byte_raw": lambda ev, a, h=h: h,
+                "thrift_read_i16": lambda ev, a: ev.append("i16") or 777,
+                "thrift_read_zigzag": lambda ev, a: ev.append("i16") or 777})
+            ty, fid = heap.get(("ty", 0)), heap.get(("fid", 0))
+            if h == 0:
+                ok = ret in (0, False) and ty == 0
+            else:
+                delta = h >> 4
+                ok = ret in (1, True) and ty == (h & 15) and (
+                    (delta == 0 and ev == ["i16"] and fid == 777) or (delta != 0 and ev == [] and fid == L + delta)) \
+                    and heap.get(("dec", do["last_field_id"])) == fid
+            if not ok and bad is None:
+                bad = "header byte 0x%02X after id %d: returns %s, type %s, id %s, explicit-id reads %s" % (h, L, ret, ty, fid, ev)
+    except (Budget, Stop) as ex:
+        ctx.inconclusive("R5.forms", "long-form|%s:thrift_read_field_begin" % TD, P.where(g.body), "abstract execution", str(ex))
+        bad = "?"
+    if bad != "?":
+        ctx.ob("R5.forms", "long-form|%s:thrift_read_field_begin" % TD, P.where(g.body),
+               "field header decoding for all 256 header bytes: STOP on 0, type = low nibble, id = previous + delta, or an "
+               "explicit zigzag id iff the delta nibble is 0; the id becomes the previous id", bad is None, bad or "")
+    # ---- list header
     f = P.fn("thrift_write_list_begin", TE)
-    cz = Canon(f)
-    okl = None
-    for n in f.body.walk():
-        if n.k == "IfStmt":
-            t = _nocast(cz([x for x in n.c if x is not None][0]))
-            # the condition is evaluated for every count -4..64: short form exactly for 0..14
-            try:
-                vals = {c: bool(_eval_tree(t, {2: c})) for c in range(-4, 65)}
-            except ValueError:
-                continue
-            okl = all(vals[c] for c in range(0, 15)) and not any(vals[c] for c in range(15, 65))
-            break
-    key = "list-short-form|%s:thrift_write_list_begin" % TE
-    if okl is None:
-        ctx.inconclusive("R5.forms", key, P.where(f.body), "list header short/long decision not recognised")
-    else:
-        ctx.ob("R5.forms", key, P.where(f.body),
-               "list header short form iff count < 15 (size nibble 0xF announces a varint count)", okl)
+    bad = None
+    try:
+        for count in range(-4, 65):
+            for et in (5, 8, 12):
+                _, ev, heap = run(f, [Ptr("enc", 0, 1), et, count], {("enc", eo["status"]): 0}, {
+                    "thrift_write_byte": lambda ev, a: ev.append(("byte", byte_of(a[1]))) or 0,
+                    "thrift_write_varint": lambda ev, a: ev.append(("varint", a[1])) or 0})
+                if count < 0:
+                    continue        # negative counts are a caller error: either form
+                want = [("byte", (count << 4) | et)] if count <= 14 else [("byte", 0xF0 | et), ("varint", count)]
+                if ev != want and bad is None:
+                    bad = "count %d, element type %d: writes %s, the compact protocol writes %s" % (count, et, ev, want)
+    except (Budget, Stop) as ex:
+        ctx.inconclusive("R5.forms", "list-short-form|%s:thrift_write_list_begin" % TE, P.where(f.body), "abstract execution", str(ex))
+        bad = "?"
+    if bad != "?":
+        ctx.ob("R5.forms", "list-short-form|%s:thrift_write_list_begin" % TE, P.where(f.body),
+               "list header: one byte (count<<4|type) iff count <= 14, else 0xF|type followed by a varint count (counts 0..64)",
+               bad is None, bad or "")
     g = P.fn("thrift_read_list_begin", TD)
-    cz = Canon(g)
-    found = False
-    for n in g.body.walk():
-        if n.k == "IfStmt":
-            t = _nocast(cz([x for x in n.c if x is not None][0]))
-            if t[0] == "bin" and t[1] == "==" and ("int", 15) in (t[2], t[3]):
-                other = t[3] if t[2] == ("int", 15) else t[2]
-                if _is_nibble(other):
-                    kids = [x for x in n.c if x is not None]
-                    found = any(c.k == "CallExpr" and c.callee == "thrift_read_varint" for c in kids[1].walk())
-    ctx.ob("R5.forms", "list-long-form|%s:thrift_read_list_begin" % TD, P.where(g.body),
-           "decoder reads a varint count iff the size nibble is 0x0F", found)
+    bad = None
+    try:
+        for h in range(0, 256):
+            ret, ev, heap = run(g, [Ptr("dec", 0, 1), Ptr("et", 0, 4), Ptr("cnt", 0, 4)], {("dec", do["status"]): 0}, {
+                "read_byte_raw": lambda ev, a, h=h: h,
+                "thrift_read_varint": lambda ev, a: ev.append("varint") or 33,
+                "carquet_buffer_reader_remaining": lambda ev, a: 1 << 20,
+                "set_error": lambda ev, a: ev.append("error") or 0})
+            nib = h >> 4
+            ok = heap.get(("et", 0)) == (h & 15) and ((nib == 15 and ev == ["varint"] and heap.get(("cnt", 0)) == 33) or
+                                                     (nib != 15 and ev == [] and heap.get(("cnt", 0)) == nib))
+            if not ok and bad is None:
+                bad = "header byte 0x%02X: element type %s, count %s, reads %s" % (h, heap.get(("et", 0)), heap.get(("cnt", 0)), ev)
+    except (Budget, Stop) as ex:
+        ctx.inconclusive("R5.forms", "list-long-form|%s:thrift_read_list_begin" % TD, P.where(g.body), "abstract execution", str(ex))
+        bad = "?"
+    if bad != "?":
+        ctx.ob("R5.forms", "list-long-form|%s:thrift_read_list_begin" % TD, P.where(g.body),
+               "list header decoding for all 256 header bytes: type = low nibble, count = high nibble, or a varint iff "
+               "the nibble is 0xF", bad is None, bad or "")
 
 
 def _nocast(t):
